@@ -294,7 +294,9 @@ def gen_case(rng, tier='quick', threads=False):
         vars_.append(['vs', {'s': sorted(rng.sample(range(10), rng.randint(0, 3)))}])
     case = {'dict_in': dict_in, 'vars': vars_, 'shortcut': (not threads) and rng.random() < 0.3,
             'parser': None, 'sc_parser_args': None, 'args_in': None,
-            'vars_yaml': bool(vars_) and rng.random() < 0.6}
+            'vars_yaml': bool(vars_) and rng.random() < 0.6,
+            'file_loader': ({'layout': rng.choice(['name', 'name', 'dir', 'both'])}
+                            if (not threads) and rng.random() < 0.3 else None)}
     # context parser of main, and where its argument list comes from: the caller's args_in,
     # the shortcut's parser_args (a list held by config.shortcuts), or both
     if rng.random() < 0.4:
